@@ -497,6 +497,9 @@ class Tensor:
         return f"symtensor({self.a.tolist()!r}, dtype={self.dtype})"
 
     def __format__(self, spec):
+        # torch: a 0-d tensor formats like its Python scalar (`format(idx, "03b")`)
+        if self.a.ndim == 0 and self.dtype.kind in "ib":
+            return self.item().__format__(spec)
         return repr(self)
 
     # -- to / device / copies ---------------------------------------------------
